@@ -248,6 +248,45 @@ Definition cookie_name (c : kconfig) (k : ckind) : bytes :=
   | CkLegacy => n_legacy
   end.
 
+(* The same, transliterated statement by statement: the package-level variables of pkg/cookie/cookie.go
+   (Login, LoginCount, Logout, Retry, Session, initialised from DefaultPrefix), ConfigureCookieNamesWithPrefix, and the
+   lines of cmd/wonderwall/main.go:run that call it:
+     if cfg.Cookie.Prefix != cookie.DefaultPrefix { cookie.ConfigureCookieNamesWithPrefix(cfg.Cookie.Prefix) }
+     if cfg.SSO.Enabled { cookie.ConfigureCookieNamesWithPrefix(cfg.SSO.SessionCookieName); cookie.Session = cfg.SSO.SessionCookieName }
+   [main_cnames] is compared with the real variables on every run (`wwh cookies`, kind cnames). *)
+Record cnames := { nm_login : bytes; nm_logincount : bytes; nm_logout : bytes; nm_retry : bytes; nm_session : bytes }.
+
+Definition default_cnames : cnames :=
+  {| nm_login := with_prefix default_prefix n_callback; nm_logincount := with_prefix default_prefix n_logincount;
+     nm_logout := with_prefix default_prefix n_logout; nm_retry := with_prefix default_prefix n_retry;
+     nm_session := with_prefix default_prefix n_session |}.
+
+(* ConfigureCookieNamesWithPrefix assigns Login, Logout, Retry, Session; LoginCount keeps its value *)
+Definition configure_cnames (p : bytes) (n : cnames) : cnames :=
+  {| nm_login := with_prefix p n_callback; nm_logincount := nm_logincount n; nm_logout := with_prefix p n_logout;
+     nm_retry := with_prefix p n_retry; nm_session := with_prefix p n_session |}.
+
+Definition with_session_name (n : cnames) (s : bytes) : cnames :=
+  {| nm_login := nm_login n; nm_logincount := nm_logincount n; nm_logout := nm_logout n; nm_retry := nm_retry n; nm_session := s |}.
+
+Definition main_cnames_with (configure : bytes -> cnames -> cnames) (c : kconfig) : cnames :=
+  let n1 := if beq (cf_prefix c) default_prefix then default_cnames else configure (cf_prefix c) default_cnames in
+  if cf_sso_server c then with_session_name (configure (cf_sso_name c) n1) (cf_sso_name c) else n1.
+
+Definition main_cnames (c : kconfig) : cnames := main_cnames_with configure_cnames c.
+
+Definition cname_of (n : cnames) (k : ckind) : bytes :=
+  match k with
+  | CkSession => nm_session n | CkLogin => nm_login n | CkLogout => nm_logout n | CkRetry => nm_retry n
+  | CkLoginCount => nm_logincount n | CkLegacy => n_legacy
+  end.
+
+(* a ConfigureCookieNamesWithPrefix that ALSO re-prefixes the login counter, but with the login cookie's suffix (the
+   one-identifier slip "LoginCount = login(prefix)"): kept to show what the distinctness theorem excludes *)
+Definition configure_cnames_slip (p : bytes) (n : cnames) : cnames :=
+  {| nm_login := with_prefix p n_callback; nm_logincount := with_prefix p n_callback; nm_logout := with_prefix p n_logout;
+     nm_retry := with_prefix p n_retry; nm_session := with_prefix p n_session |}.
+
 (* ------------------------------------------------------------------ handler options *)
 
 (* Standalone.CookieOptions: NewStandalone, overwritten by NewSSOServer *)
